@@ -19,6 +19,14 @@ CHECKS = {
         technique="deterministic simulation with reset-fault enumeration at every clock position of sampled runs; reference model + power-up equivalence",
         ref="6/C04",
     ),
+    "C11": dict(
+        level="fault_enumeration",
+        engine="session",
+        text="The compiler session is the simulated system: each run executes one history of compilations in a fork of a pristine interpreter started under a chosen PYTHONHASHSEED. The injected fault is the rejected compilation (a real user error planted at marked sites of valid designs so that the exception unwinds from every pipeline stage). For EVERY planted rejection the history [reject, then every valid and context-invalid design twice in seeded order] is run (thorough: also every adjacent (rejection, design) pair and 8 orders per rejection), plus sampled histories of 12-40 operations and goldens across 8 (thorough 32) hash seeds. Oracle: every compile in a history has the outcome (bytes or rejection) of the same source compiled alone in a fresh fork. Enumeration is over the catalogue; the catalogue itself is finite and hand-written.",
+        note="Trusted: fork() isolation of the pristine interpreter, the design pool / planted-error catalogue (vf/gen/pool.py). Exceptions no design can provoke are out of scope. fork does not scale across processes in this VM, hence long histories rather than many.",
+        technique="deterministic simulation of compile histories with rejected-compilation faults in forked pristine interpreters per hash seed; fresh-interpreter oracle",
+        ref="6/C11",
+    ),
 }
 
 NOT_APPLICABLE = {
